@@ -32,7 +32,7 @@ func init() {
 			return []mon.Family{
 				{Name: "contract-liveness", N: 1, Run: c03Liveness},
 				{Name: "all-masks-all-nodes", N: (1 << uint(hmax+1)) - 1, Run: c03AllSmall},
-				{Name: "large-heights", N: 20 * c.Pick(40, 1500), Run: c03Large},
+				{Name: "large-heights", N: 20 * c.Pick(200, 20000), Run: c03Large},
 			}
 		},
 		Merge: func(tier string, rs map[string]*mon.Result) []mon.Violation {
